@@ -1,6 +1,11 @@
 import CedarVerif.Driver.Codec
 import CedarVerif.Cedar.NoPanic.Datetime
-/- Driver ops of the C20 mirrors: the panic-site-explicit `parse_datetime` and `contains_at_least_two`. -/
+import CedarVerif.Cedar.NoPanic.Collections
+import CedarVerif.Cedar.NoPanic.Dispatch
+import CedarVerif.Cedar.NoPanic.Unescape
+/- Driver ops of the C20 mirrors: the panic-site-explicit `parse_datetime`, `contains_at_least_two`,
+`FromIterator<Value> for Set` (`np-set`), `to_unescaped_string` + `Display` of its errors (`np-unescape`) and the public helpers `binary_relation` / `binary_arith` (`np-binop`; here a
+`panic` reply is an expected answer for operators outside the helper's contract and must match the implementation). -/
 namespace CedarVerif.Ops
 open CedarVerif Cedar
 
@@ -18,6 +23,26 @@ def handleNoPanic (x : Sexp) : Option String :=
       | .result b => s!"(np-two {b})"
       | .panic site => s!"(np-two panic:{site})")
     | _ => some "(bad-op)"
+  | .list (.atom "np-set" :: xs) =>
+    match decValues xs with
+    | none => some "(bad-op)"
+    | some vs => some (match NoPanic.setFromIter vs with
+      | .built s => s!"(np-set {if s.fast.isSome then "fast" else "slow"} {s.authoritative.length})"
+      | .panic site => s!"(np-set panic:{site})")
+  | .list [.atom "np-binop", .atom which, .atom op, a, b] =>
+    match decBinary op, decValue a, decValue b with
+    | some op, some v1, some v2 =>
+      let o := if which == "rel" then NoPanic.binaryRelation op v1 v2 else NoPanic.binaryArith op v1 v2
+      some (match o with
+        | .ret r => s!"(np-binop {encResult r})"
+        | .panic _ => "(np-binop panic)")
+    | _, _, _ => some "(bad-op)"
+  | .list [.atom "np-unescape", .atom mode, .str s] =>
+    some (match NoPanic.unescapeSlices s.toList (mode == "pat") with
+      | .ret true _ => "(np-unescape ok)"
+      | .ret false shown => "(np-unescape err" ++ String.join (shown.map (fun t => " " ++ (Sexp.str (String.ofList t)).toString)) ++ ")"
+      | .panic site => s!"(np-unescape panic:{site})"
+      | .fuel => "(np-unescape fuel)")
   | _ => none
 
 end CedarVerif.Ops
